@@ -217,55 +217,78 @@ structure EAcc where
 
 def sumRange (l : List Int) (a b : Nat) : Int := ((l.drop a).take (b + 1 - a)).sum   -- Σ l[a..b]
 
+def nextWaitOf (mw : Int) (next : Option JStep) : Int :=
+  match next with
+  | some nx => match nx.enter with
+    | some e => e.effWait mw
+    | none => 0
+  | none => 0
+
+/-- in-vehicle distance of a leg: Σ segment distances when they are available, else -1 -/
+def legIvd (ds : Dataset) (e x : Conn) : Int :=
+  let dists := (ds.pathOfTrip e.trip).dist
+  if x.seq - 1 < dists.length then sumRange dists (e.seq - 1) (x.seq - 1) else -1
+
+def legHasDist (ds : Dataset) (e x : Conn) : Bool := decide (x.seq - 1 < (ds.pathOfTrip e.trip).dist.length)
+
+/-- a leg (both connections present) at index `i` of `n`; written field by field - the C++ code
+    performs the same updates one after the other (`reverse_journey.cpp:84-190`) -/
+def emitLeg (ds : Dataset) (mw : Int) (n : Nat) (a : EAcc) (i : Nat) (js : JStep) (e x : Conn) (next : Option JStep) : EAcc :=
+  let ivt := x.arr - e.dep
+  let wait := e.dep - a.transferArr
+  let tArr := x.arr + js.walk
+  let xf := ds.transferable e.trip
+  let hd := legHasDist ds e x
+  let ivd := legIvd ds e x
+  let mid := decide (i + 2 < n)
+  let asWalk := hd && xf          -- a `transferable` leg with distances is booked as walking
+  let d1 : Int := if hd then a.totalDist + ivd else -1
+  { a with
+    totalIVT := a.totalIVT + ivt
+    totalWait := a.totalWait + wait
+    numTransfers := if xf then a.numTransfers else a.numTransfers + 1
+    transferArr := tArr
+    arrival := x.arr
+    totalDist := if mid then (if d1 ≠ -1 then d1 + js.dist else d1) else d1
+    totalWalkDist := a.totalWalkDist + (if asWalk then ivd else 0) + (if mid then js.dist else 0)
+    totalWalk := a.totalWalk + (if asWalk then ivt else 0) + (if mid then js.walk else 0)
+    totalTransferDist := a.totalTransferDist + (if asWalk then ivd else 0) + (if mid then js.dist else 0)
+    totalTransferWalk := a.totalTransferWalk + (if asWalk then ivt else 0) + (if mid then js.walk else 0)
+    totalIVD := if hd then (if xf then a.totalIVD else a.totalIVD + ivd) else -1
+    accessWait := if i = 1 then wait else a.accessWait
+    totalTransferWait := if i = 1 then a.totalTransferWait else a.totalTransferWait + wait
+    steps := a.steps ++ [Step.board e.trip e.seq e.depStop e.dep wait, Step.unboard e.trip x.seq x.arrStop x.arr ivt ivd]
+              ++ (if mid then [Step.walk 1 js.walk js.dist x.arr tArr (tArr + nextWaitOf mw next)] else []) }
+
+/-- the access step (index 0) -/
+def emitAccess (mw bestDep : Int) (a : EAcc) (js : JStep) (next : Option JStep) : EAcc :=
+  let tArr := bestDep + js.walk
+  { a with
+    totalDist := if a.totalDist ≠ -1 then a.totalDist + js.dist else a.totalDist
+    totalWalkDist := a.totalWalkDist + js.dist
+    transferArr := tArr
+    totalWalk := a.totalWalk + js.walk
+    accessWalk := js.walk
+    accessDist := js.dist
+    steps := a.steps ++ [Step.walk 0 js.walk js.dist bestDep tArr (tArr + nextWaitOf mw next)] }
+
+/-- the egress step (a step without connections at an index other than 0) -/
+def emitEgress (a : EAcc) (js : JStep) : EAcc :=
+  { a with
+    totalDist := if a.totalDist ≠ -1 then a.totalDist + js.dist else a.totalDist
+    totalWalkDist := a.totalWalkDist + js.dist
+    totalWalk := a.totalWalk + js.walk
+    egressWalk := js.walk
+    transferArr := a.arrival + js.walk
+    egressDist := js.dist
+    arrival := a.arrival + js.walk
+    steps := a.steps ++ [Step.walk 2 js.walk js.dist a.arrival (a.arrival + js.walk) 0] }
+
 /-- one journey step at index `i` of `n`; `next` is `journey[i+1]` -/
 def emitStep (ds : Dataset) (mwDflt bestDep : Int) (n : Nat) (a : EAcc) (i : Nat) (js : JStep) (next : Option JStep) : EAcc :=
-  let nextWait : Int := match next with
-    | some nx => match nx.enter with
-      | some e => e.effWait mwDflt
-      | none => 0
-    | none => 0
   match js.enter, js.exit with
-  | some e, some x =>
-    let trip := e.trip
-    let ivt := x.arr - e.dep
-    let wait := e.dep - a.transferArr
-    let tArr := x.arr + js.walk
-    let ready := tArr + nextWait
-    let transferable := ds.transferable trip
-    let dists := (ds.pathOfTrip trip).dist
-    let hasDist := decide (x.seq - 1 < dists.length)
-    let ivd : Int := if hasDist then sumRange dists (e.seq - 1) (x.seq - 1) else -1
-    let a1 : EAcc := { a with
-      totalIVT := a.totalIVT + ivt, totalWait := a.totalWait + wait,
-      numTransfers := if transferable then a.numTransfers else a.numTransfers + 1,
-      transferArr := tArr, arrival := x.arr }
-    let a2 : EAcc := if hasDist then
-        if transferable then
-          { a1 with totalDist := a1.totalDist + ivd, totalWalkDist := a1.totalWalkDist + ivd,
-                    totalWalk := a1.totalWalk + ivt, totalTransferDist := a1.totalTransferDist + ivd,
-                    totalTransferWalk := a1.totalTransferWalk + ivt }
-        else { a1 with totalDist := a1.totalDist + ivd, totalIVD := a1.totalIVD + ivd }
-      else { a1 with totalDist := -1, totalIVD := -1 }
-    let a3 : EAcc := if i = 1 then { a2 with accessWait := wait } else { a2 with totalTransferWait := a2.totalTransferWait + wait }
-    let a4 : EAcc := { a3 with steps := a3.steps ++ [Step.board trip e.seq e.depStop e.dep wait,
-                                                      Step.unboard trip x.seq x.arrStop x.arr ivt ivd] }
-    if i + 2 < n then
-      { a4 with totalTransferWalk := a4.totalTransferWalk + js.walk, totalWalk := a4.totalWalk + js.walk,
-                totalDist := if a4.totalDist ≠ -1 then a4.totalDist + js.dist else a4.totalDist,
-                totalWalkDist := a4.totalWalkDist + js.dist, totalTransferDist := a4.totalTransferDist + js.dist,
-                steps := a4.steps ++ [Step.walk 1 js.walk js.dist x.arr tArr ready] }
-    else a4
-  | _, _ =>
-    let a1 : EAcc := { a with totalDist := if a.totalDist ≠ -1 then a.totalDist + js.dist else a.totalDist,
-                              totalWalkDist := a.totalWalkDist + js.dist }
-    if i = 0 then
-      let tArr := bestDep + js.walk
-      { a1 with transferArr := tArr, totalWalk := a1.totalWalk + js.walk, accessWalk := js.walk, accessDist := js.dist,
-                steps := a1.steps ++ [Step.walk 0 js.walk js.dist bestDep tArr (tArr + nextWait)] }
-    else
-      { a1 with totalWalk := a1.totalWalk + js.walk, egressWalk := js.walk, transferArr := a1.arrival + js.walk,
-                egressDist := js.dist, arrival := a1.arrival + js.walk,
-                steps := a1.steps ++ [Step.walk 2 js.walk js.dist a1.arrival (a1.arrival + js.walk) 0] }
+  | some e, some x => emitLeg ds mwDflt n a i js e x next
+  | _, _ => if i = 0 then emitAccess mwDflt bestDep a js next else emitEgress a js
 
 def emitLoop (ds : Dataset) (mwDflt bestDep : Int) (n : Nat) : List JStep → Nat → EAcc → EAcc
   | [], _, a => a
